@@ -610,30 +610,15 @@ func classify(info *vk.Info, c Case, m *model, nvariants int) {
 	info.ClassIf(len(c.Ops) == 0, "no_calls")
 }
 
-// knownLimit0SingleInvalidByte recognises exactly: AttributeValueLengthLimit 0
-// and a string value consisting of one invalid byte, exported unchanged.
-func knownLimit0SingleInvalidByte(c Case, v vk.Violation) bool {
-	o, ok := v.Observed.(truncObs)
-	if !ok || c.Limits.ValueLen != 0 || o.Limit != 0 {
-		return false
-	}
-	kind := strings.TrimPrefix(v.Kind, "live_")
-	if kind != "string_invalid_bytes_kept" && kind != "string_over_length" {
-		return false
-	}
-	return len(o.In) == 1 && !utf8.ValidString(string(o.In)) && o.Got == o.In
-}
-
 func TestSpanModel(t *testing.T) {
 	vk.Run(t, vk.Spec[Case]{
 		Property: "C04", Check: "span_model",
 		Rule: "six span limits from {-1,0,1,2,3,5,128} (biased small), start options (attributes, sampler attributes, links, kind, timestamp) and 0..40 span API calls " +
 			"(SetAttributes 0..12 kvs of all eight types with duplicate/empty keys and hostile strings, AddEvent, AddLink valid/invalid, RecordError, SetStatus, SetName, End) incl. calls after End; " +
 			"non-trivial = the program fills the attribute map (a new key refused or an existing key updated while full) or evicts/drops >= 1 event or link or has >= 1 string cut by the value length limit; distinct = distinct case encodings",
-		Quick: 50000, Thorough: 750000,
+		Quick: 25000, Thorough: 750000,
 		Gen: gen, Run: run,
-		Known: map[string]func(Case, vk.Violation) bool{
-			"truncate_limit0_single_invalid_byte": knownLimit0SingleInvalidByte,
-		},
+		// no open known finding: the limit-0 / single-invalid-byte defect this
+		// check found was repaired in /repo (see known_findings.json "fixed").
 	})
 }
